@@ -558,7 +558,10 @@ def gen_font_case(rng, tier, i):
                 save()
         if not any(o[0] == "save" for o in ops):
             save()
-    return dict(kind="font", spec=spec, s=s, structure=structure, preread=pre, ops=ops)
+    # an observer that READS the font's top-level data from inside the notifications a save posts (clearing a dirty
+    # flag posts *.Changed), and/or a hold bracket around every save
+    return dict(kind="font", spec=spec, s=s, structure=structure, preread=pre, ops=ops,
+                observer=rng.random() < 0.3, hold=rng.random() < 0.15)
 
 
 def gen_text(rng):
@@ -931,6 +934,33 @@ def _poison(font, kind, keep):
     raise ValueError(kind)
 
 
+class Watcher(object):
+    """observer of the font, its info, kerning and lib: every callback reads the top-level data through the getters"""
+
+    def __init__(self, font):
+        self.font = font
+        self.seen = []
+        self.active = False
+        font.addObserver(self, "cb", "Font.Changed")
+        font.info.addObserver(self, "cb", "Info.Changed")
+        font.kerning.addObserver(self, "cb", "Kerning.Changed")
+        font.lib.addObserver(self, "cb", "Lib.Changed")
+        font.layers.addObserver(self, "cb", "LayerSet.Changed")
+
+    def cb(self, notification):
+        if not self.active:
+            return
+        f = self.font
+        try:
+            snap = dict(kerning={"%s|%s" % k: fg._num(v) for k, v in f.kerning.items()},
+                        groups={k: list(v) for k, v in f.groups.items()}, features=f.features.text or None,
+                        lib=fg._norm_lib({k: v for k, v in f.lib.items() if k != "public.glyphOrder"}),
+                        glyphs=sorted(f.keys()), layers=list(f.layers.layerOrder))
+        except Exception as e:
+            snap = dict(error="%s: %s" % (type(e).__name__, str(e)[:100]))
+        self.seen.append((notification.name, snap))
+
+
 class Run(object):
     def __init__(self, case, tmpd):
         from defcon import Font
@@ -1079,6 +1109,39 @@ def run_font(case, tmpd):
     run.preread()
     outs.append(Atom("ok"))
     conversions = 0
+    watcher = Watcher(font) if case.get("observer") else None
+    if watcher:
+        stats["observer_cases"] = 1
+    if case.get("hold"):
+        stats["hold_cases"] = 1
+
+    def do_save(*a, **kw):
+        if watcher:
+            watcher.seen, watcher.active = [], True
+        if case.get("hold"):
+            font.holdNotifications(note="harness bracket")
+        try:
+            font.save(*a, **kw)
+        finally:
+            if case.get("hold"):
+                font.releaseHeldNotifications()
+            if watcher:
+                watcher.active = False
+
+    def check_watcher(i, op):
+        if not watcher or viol:
+            return
+        e = exp_dump(sh.s)
+        D = sh.layer(sh.s["default"])
+        want = dict(kerning=e["kerning"], groups=e["groups"], features=e["features"], lib=e["lib"], glyphs=sorted(D["glyphs"]),
+                    layers=[l["name"] for l in sh.s["layers"]])
+        stats["observer_callbacks"] = stats.get("observer_callbacks", 0) + len(watcher.seen)
+        for name, snap in watcher.seen:
+            if snap != want:
+                bad = sorted(k for k in set(snap) | set(want) if snap.get(k) != want.get(k))
+                V("memory-differs-inside-callback", "%s/%s" % (name, bad[0]), step=i, op=op, observed={k: snap.get(k) for k in bad[:2]},
+                  expected={k: want.get(k) for k in bad[:2]})
+                return
     for i, op in enumerate(case["ops"]):
         k = op[0]
         stats["op." + k] = stats.get("op." + k, 0) + 1
@@ -1113,9 +1176,9 @@ def run_font(case, tmpd):
             raised = None
             try:
                 if arg is None:
-                    font.save(formatVersion=t)
+                    do_save(formatVersion=t)
                 else:
-                    font.save(arg, formatVersion=t, structure=structure)
+                    do_save(arg, formatVersion=t, structure=structure)
             except Exception as e:
                 raised = type(e).__name__
             undo()
@@ -1143,9 +1206,9 @@ def run_font(case, tmpd):
         stats["save.structure." + structure] = stats.get("save.structure." + structure, 0) + 1
         try:
             if arg is None:
-                font.save(formatVersion=t)
+                do_save(formatVersion=t)
             else:
-                font.save(arg, formatVersion=t, structure=structure)
+                do_save(arg, formatVersion=t, structure=structure)
         except Exception as e:
             outs.append([Atom("err"), Atom("save")])
             outs.append([Atom("err"), Atom("reopen")])
@@ -1154,6 +1217,7 @@ def run_font(case, tmpd):
             continue
         if fmt_before != t or mode != "inplace":
             conversions += 1
+        check_watcher(i, op)
         # --- the UFO that was written, read back raw
         try:
             disk = raw_disk(font.path)
